@@ -152,6 +152,8 @@ def _gen_corrupt(rng):
         if c == full[i]:
             c = "q" if full[i] != "q" else "p"
         return dict(descriptor=full[:i] + c + full[i + 1:])
+    if k < 0.66:
+        return dict(descriptor=full[:-8])                             # the checksum cut off whole: a bare '#'
     if k < 0.75:
         return dict(descriptor=full[:-rng.randrange(1, 9)])          # checksum cut short, down to a bare '#'
     if k < 0.85:
